@@ -846,3 +846,306 @@ pub fn tokens(path: &str, out_dir: &str, thorough: bool, skip: usize) -> Result<
     v["language_locale_pairs"] = json!(pairs.len());
     Ok(v)
 }
+
+// ------------------------------------------------------------------------------------------
+// C08 no non-finite numbers stored: {args: [class, ...], shape}, crossed with every built-in
+// function and operator.
+
+fn arg_literal(class: &str) -> &'static str {
+    match class {
+        "huge" => "1E308",
+        "tiny" => "1E-308",
+        "neghuge" => "-1E308",
+        "zero" => "0",
+        "one" => "1",
+        "negone" => "-1",
+        "half" => "0.5",
+        "empty" => "",
+        "true" => "TRUE",
+        "text" => "\"text\"",
+        "hugetext" => "\"1E308\"",
+        "inftext" => "\"inf\"",
+        "div0" => "#DIV/0!",
+        _ => "1",
+    }
+}
+
+fn scan_nonfinite(model: &Model) -> Vec<(i32, i32, String)> {
+    use ironcalc_base::types::{Cell, FormulaValue, SpillValue};
+    let mut bad = vec![];
+    for ws in &model.workbook.worksheets {
+        for (r, row) in &ws.sheet_data {
+            for (c, cell) in row {
+                let v = match cell {
+                    Cell::NumberCell { v, .. } => Some(*v),
+                    Cell::CellFormula { v: FormulaValue::Number(x), .. } => Some(*x),
+                    Cell::ArrayFormula { v: FormulaValue::Number(x), .. } => Some(*x),
+                    Cell::SpillCell { v: SpillValue::Number(x), .. } => Some(*x),
+                    _ => None,
+                };
+                if let Some(x) = v {
+                    if !x.is_finite() {
+                        bad.push((*r, *c, crate::project::num_class(x).to_string()));
+                    }
+                }
+            }
+        }
+    }
+    bad
+}
+
+/// Functions whose running time or result size is proportional to the VALUE of an argument do
+/// not return in reasonable time for huge arguments (SEQUENCE(1E308), REPT("x",1E308), ...).
+/// Each function is probed alone, in its own thread, with a one-second limit; the ones that do
+/// not return are left out of the sweep and listed in the evidence.
+fn probe_unbounded(fns: &[String]) -> Vec<String> {
+    // every probe is a child process of this executable (`icverif evalone <formula>`), so that one
+    // that does not return can be killed
+    let exe = match std::env::current_exe() {
+        Ok(e) => e,
+        Err(_) => return vec![],
+    };
+    let vals = ["1E308", "-1E308", "0.5", "1", "1E-308"];
+    let mut probes: Vec<String> = vals.iter().map(|v| v.to_string()).collect();
+    for a in vals {
+        for b in vals {
+            if a.contains("308") || b.contains("308") {
+                probes.push(format!("{a},{b}"));
+            }
+        }
+    }
+    probes.push("\"text\",1E308".to_string());
+    probes.push("1E308,1,1".to_string());
+    probes.push("1,1E308,1".to_string());
+    probes.push("1,1,1E308".to_string());
+    let slow = std::sync::Mutex::new(Vec::<String>::new());
+    let next = std::sync::atomic::AtomicUsize::new(0);
+    std::thread::scope(|sc| {
+        for _ in 0..8 {
+            sc.spawn(|| loop {
+                let i = next.fetch_add(1, std::sync::atomic::Ordering::Relaxed);
+                if i >= fns.len() {
+                    break;
+                }
+                let name = &fns[i];
+                'probes: for args in &probes {
+                    let f = format!("={}({})", name, args);
+                    let child = std::process::Command::new(&exe).arg("evalone").arg("--f").arg(&f)
+                        .stdout(std::process::Stdio::null()).stderr(std::process::Stdio::null()).spawn();
+                    if let Ok(mut ch) = child {
+                        let t0 = std::time::Instant::now();
+                        loop {
+                            match ch.try_wait() {
+                                Ok(Some(_)) => break,
+                                Ok(None) => {
+                                    if t0.elapsed().as_millis() > 1500 {
+                                        let _ = ch.kill();
+                                        let _ = ch.wait();
+                                        if let Ok(mut g) = slow.lock() {
+                                            g.push(name.clone());
+                                        }
+                                        break 'probes;
+                                    }
+                                    std::thread::sleep(std::time::Duration::from_millis(2));
+                                }
+                                Err(_) => break,
+                            }
+                        }
+                    }
+                }
+            });
+        }
+    });
+    let mut v = slow.into_inner().unwrap_or_default();
+    v.sort();
+    v
+}
+
+pub fn evalone(formula: &str) -> Result<Value, String> {
+    let mut m = Model::new_empty("b", "en", "UTC", "en")?;
+    let _ = m.set_user_input(0, 1, 1, formula.to_string());
+    m.evaluate();
+    Ok(json!({"value": m.get_formatted_cell_value(0, 1, 1).unwrap_or_default()}))
+}
+
+pub fn finite(path: &str, out_dir: &str, thorough: bool, skip: usize) -> Result<Value, String> {
+    use ironcalc_base::Function;
+    let mut rep = Report::new(out_dir)?;
+    let language = ironcalc_base::language::get_language("en").map_err(|_| "language")?;
+    let all_fns: Vec<String> = Function::into_iter().map(|f| f.to_localized_name(language)).collect();
+    // quick tier: the functions the probe found on the pinned tree; thorough tier: probe again
+    let unbounded: Vec<String> = if thorough {
+        probe_unbounded(&all_fns)
+    } else {
+        ["BESSELJ", "BESSELK", "COMBIN", "COMBINA", "FACT", "FACTDOUBLE", "MULTINOMIAL", "PERMUT", "REPT", "T.INV.2T", "TINV"].iter().map(|x| x.to_string()).collect()
+    };
+    let fns: Vec<String> = all_fns.iter().filter(|n| !unbounded.contains(n)).cloned().collect();
+    // watchdog for the sweep itself
+    let started = std::sync::Arc::new(std::sync::atomic::AtomicU64::new(0));
+    let current = std::sync::Arc::new(std::sync::Mutex::new(String::new()));
+    {
+        let (st2, cur2, od) = (started.clone(), current.clone(), out_dir.to_string());
+        let t0 = std::time::Instant::now();
+        std::thread::spawn(move || loop {
+            std::thread::sleep(std::time::Duration::from_millis(500));
+            let s = st2.load(std::sync::atomic::Ordering::Relaxed);
+            if s > 0 && t0.elapsed().as_secs() > s + 20 {
+                let c = cur2.lock().map(|g| g.clone()).unwrap_or_default();
+                let _ = std::fs::write(format!("{}/TIMEOUT.json", od), c);
+                std::process::exit(3);
+            }
+        });
+    }
+    let sweep_t0 = std::time::Instant::now();
+    let ops2 = ["+", "-", "*", "/", "^", "&", "=", "<", ">", "<=", ">=", "<>"];
+    let f = std::fs::File::open(path).map_err(|e| e.to_string())?;
+    let mut cases: Vec<Value> = vec![];
+    for line in std::io::BufReader::new(f).lines() {
+        let line = line.map_err(|e| e.to_string())?;
+        if let Ok(v) = serde_json::from_str::<Value>(&line) {
+            cases.push(v);
+        }
+    }
+    for (ci, c) in cases.iter().enumerate() {
+        if ci < skip {
+            continue;
+        }
+        rep.n_cases += 1;
+        let classes: Vec<&str> = c["args"].as_array().map(|a| a.iter().map(|x| x.as_str().unwrap_or("")).collect()).unwrap_or_default();
+        let shape = c["shape"].as_str().unwrap_or("scalar");
+        if !thorough && matches!(shape, "viaref" | "range") && classes.len() > 1 && rep.n_cases % 3 != 0 {
+            continue; // quick tier: a third of the by-reference vectors of length 2
+        }
+        // argument texts per shape; referenced cells live in row 10
+        let mut setup: Vec<(i32, i32, String)> = vec![];
+        let mut args: Vec<String> = vec![];
+        let mut representable = true;
+        for (i, cl) in classes.iter().enumerate() {
+            let lit = arg_literal(cl);
+            let col = (i as i32) + 2;
+            match shape {
+                "scalar" | "cse" | "spill" => {
+                    if lit.is_empty() {
+                        args.push("Z99".to_string()); // an empty cell
+                    } else {
+                        args.push(lit.to_string());
+                    }
+                }
+                "viaref" => {
+                    setup.push((10, col, if *cl == "div0" { "=1/0".to_string() } else { lit.trim_matches('"').to_string() }));
+                    args.push(format!("{}10", (b'A' + col as u8 - 1) as char));
+                }
+                "range" => {
+                    setup.push((10, col, if *cl == "div0" { "=1/0".to_string() } else { lit.trim_matches('"').to_string() }));
+                    setup.push((11, col, "1".to_string()));
+                    let ch = (b'A' + col as u8 - 1) as char;
+                    args.push(format!("{ch}10:{ch}11"));
+                }
+                "arraylit" => {
+                    if lit.is_empty() {
+                        representable = false;
+                    }
+                    args.push(format!("{{{},1}}", lit));
+                }
+                _ => {}
+            }
+        }
+        if !representable {
+            rep.no_verdict += 1;
+            continue;
+        }
+        let arglist = args.join(",");
+        let mut formulas: Vec<(String, String)> = vec![];
+        for name in &fns {
+            formulas.push((name.clone(), format!("={}({})", name, arglist)));
+        }
+        if args.len() == 2 {
+            for op in ops2 {
+                formulas.push((format!("op{op}"), format!("={}{}{}", args[0], op, args[1])));
+            }
+        }
+        if args.len() == 1 {
+            formulas.push(("op-neg".into(), format!("=-{}", args[0])));
+            formulas.push(("op%".into(), format!("={}%", args[0])));
+            formulas.push(("op*10".into(), format!("={}*10", args[0])));
+            formulas.push(("op^2".into(), format!("={}^2", args[0])));
+        }
+        // batch: one model, every formula in its own row (columns F.. for results so that spills have room)
+        let mut model = Model::new_empty("b", "en", "UTC", "en")?;
+        for (r, col, text) in &setup {
+            let _ = model.set_user_input(0, *r, *col, text.clone());
+        }
+        let base_row = 20;
+        for (i, (_name, ftext)) in formulas.iter().enumerate() {
+            let r = base_row + (i as i32) * 3;
+            let res = std::panic::catch_unwind(std::panic::AssertUnwindSafe(|| match shape {
+                "cse" => model.set_user_array_formula(0, r, 6, 2, 1, ftext),
+                "spill" => model.set_user_input(0, r, 6, format!("{}*{{1,2}}", ftext)),
+                _ => model.set_user_input(0, r, 6, ftext.clone()),
+            }));
+            if res.is_err() {
+                rep.mismatch("PANIC", "panic", &formulas[i].0, json!({"formula": ftext, "shape": shape}), "panic while entering".into());
+            }
+        }
+        if let Ok(mut g) = current.lock() {
+            *g = json!({"args": classes, "shape": shape, "index": ci}).to_string();
+        }
+        started.store(sweep_t0.elapsed().as_secs() + 1, std::sync::atomic::Ordering::Relaxed);
+        let ev = std::panic::catch_unwind(std::panic::AssertUnwindSafe(|| model.evaluate()));
+        rep.n_checks += formulas.len();
+        if ev.is_err() {
+            // a formula of the batch panicked: evaluate each one alone to name it (and to still
+            // scan the others)
+            for (name, ftext) in formulas.iter() {
+                let r = std::panic::catch_unwind(|| -> Option<Vec<(i32, i32, String)>> {
+                    let mut m = Model::new_empty("b", "en", "UTC", "en").ok()?;
+                    for (r, col, text) in &setup {
+                        let _ = m.set_user_input(0, *r, *col, text.clone());
+                    }
+                    match shape {
+                        "cse" => { let _ = m.set_user_array_formula(0, 20, 6, 2, 1, ftext); }
+                        "spill" => { let _ = m.set_user_input(0, 20, 6, format!("{}*{{1,2}}", ftext)); }
+                        _ => { let _ = m.set_user_input(0, 20, 6, ftext.clone()); }
+                    }
+                    m.evaluate();
+                    Some(scan_nonfinite(&m))
+                });
+                match r {
+                    Err(_) => rep.mismatch("C08", "panic", &format!("eval:{name}"), json!({"formula": ftext, "shape": shape, "args": classes}), "evaluation panicked".into()),
+                    Ok(Some(bad)) => {
+                        for (r2, c2, class) in bad {
+                            rep.mismatch("C08", &format!("stored-{class}"), &format!("{shape}:{name}"), json!({"formula": ftext, "shape": shape, "args": classes, "cell": [r2, c2]}), String::new());
+                        }
+                    }
+                    _ => {}
+                }
+            }
+            continue;
+        }
+        for (r, col, class) in scan_nonfinite(&model) {
+            let i = ((r - base_row) / 3) as usize;
+            let (name, ftext) = formulas.get(i).cloned().unwrap_or(("setup".into(), "".into()));
+            let _ = col;
+            rep.mismatch("C08", &format!("stored-{class}"), &format!("{shape}:{name}"), json!({"formula": ftext, "shape": shape, "args": classes, "cell": [r, col]}), String::new());
+        }
+        rep.nontrivial.insert(format!("{}|{}", shape, classes.join(",")));
+        if rep.samples.len() < 3 && classes.len() == 2 {
+            rep.samples.push(json!({"args": classes, "shape": shape, "example": formulas.get(7).map(|x| x.1.clone())}));
+        }
+    }
+    // numbers typed by the user
+    let mut model = Model::new_empty("b", "en", "UTC", "en")?;
+    for (i, t) in ["1e308", "1e309", "-1e309", "1e999", "9e999%", "$1e400", "inf", "nan", "Infinity", "-inf", "1e-400", "2e308"].iter().enumerate() {
+        rep.n_checks += 1;
+        let _ = model.set_user_input(0, (i + 1) as i32, 1, t.to_string());
+    }
+    model.evaluate();
+    for (r, _c, class) in scan_nonfinite(&model) {
+        rep.mismatch("C08", &format!("stored-{class}"), "typed-number", json!({"row": r}), String::new());
+    }
+    started.store(0, std::sync::atomic::Ordering::Relaxed);
+    let mut v = rep.finish();
+    v["functions"] = json!(fns.len());
+    v["excluded_unbounded_functions"] = json!(unbounded);
+    Ok(v)
+}
